@@ -44,7 +44,7 @@ func main() {
 			return err
 		}
 		g := &gctx{svc: svc, ss: ss, rt: rt, ap: ap, l: l}
-		for _, f := range []func() error{g.consts, g.perf, g.natTimeout, g.mtu, g.pskLengths, g.policies, g.filterSize, g.directTargetOnly, g.defaultClient, g.legacy, g.setNames, g.serverIndex, g.apiBlock} {
+		for _, f := range []func() error{g.consts, g.perf, g.natTimeout, g.mtu, g.pskLengths, g.policies, g.filterSize, g.directTargetOnly, g.defaultClient, g.legacy, g.setNames, g.serverIndex, g.apiBlock, g.clientAddresses} {
 			if err := f(); err != nil {
 				return err
 			}
@@ -1110,5 +1110,42 @@ func (g *gctx) apiBlock() error {
 		return fmt.Errorf("api.Config.NewServer: expected one registration of pprof.Index, found %d", idx)
 	}
 	g.l.BoolDef("apiPprofIndexHasMethod", method, "api.Config.NewServer: the pprof index pattern carries the GET method (else it conflicts with the static file pattern \"GET /\")")
+	return nil
+}
+
+// ---- ClientConfig.checkAddresses: a chain of INDEPENDENT `if` statements (each enabled network is checked) ----
+
+func (g *gctx) clientAddresses() error {
+	fd, err := g.svc.Func("*ClientConfig", "checkAddresses")
+	if err != nil {
+		return err
+	}
+	want := []string{
+		`if cc.Protocol == "direct" { return nil }`,
+		`ev := cc.Endpoint.IsValid()`,
+		`tv := cc.TCPAddress.IsValid()`,
+		`uv := cc.UDPAddress.IsValid()`,
+		`if ev == (tv || uv) { return errors.New("missing or conflicting proxy server address(es)") }`,
+		`if ev { cc.TCPAddress = cc.Endpoint cc.UDPAddress = cc.Endpoint return nil }`,
+		`if cc.EnableTCP && !tv { return errors.New("missing proxy server TCP address") }`,
+		`if cc.EnableUDP && !uv { return errors.New("missing proxy server UDP address") }`,
+		`return nil`,
+	}
+	if len(fd.Body.List) != len(want) {
+		return fmt.Errorf("ClientConfig.checkAddresses: %d statements, expected the %d independent checks: %q", len(fd.Body.List), len(want), g.svc.Src(fd.Body))
+	}
+	for i, st := range fd.Body.List {
+		if g.svc.Src(st) != want[i] {
+			return fmt.Errorf("ClientConfig.checkAddresses: statement %d is %q, expected %q", i, g.svc.Src(st), want[i])
+		}
+	}
+	in, err := g.svc.Func("*ClientConfig", "Initialize")
+	if err != nil {
+		return err
+	}
+	if !strings.Contains(g.svc.Src(in.Body), "if err = cc.checkAddresses(); err != nil { return }") {
+		return fmt.Errorf("ClientConfig.Initialize: call of checkAddresses not found")
+	}
+	g.l.BoolDef("clientAddressChecksIndependent", true, "ClientConfig.checkAddresses: endpoint xor split form, then one independent `if` per enabled network (TCP, UDP)")
 	return nil
 }
